@@ -5,8 +5,8 @@
    (an invalid index is [Err ERR_INDEX], as numpy raises IndexError), so the statements about
    [theta_predict] need no separate validity hypothesis.  Purity is checked by the harness. *)
 From Coq Require Import ZArith List QArith Qcanon.
-From Batchie Require Import Lib.Sexp Lib.Num Model.Predict
-  Proofs.C09Lists Proofs.C09Predict Proofs.C09Main.
+From Batchie Require Import Lib.Sexp Lib.Num Model.Predict Generated.SrcPredict
+  Proofs.C09Lists Proofs.C09Predict Proofs.C09Main Proofs.C09Source.
 Import ListNotations.
 Open Scope Qc_scope.
 
@@ -227,4 +227,140 @@ Example C09_ex_invalid :
   py_valid 0 CONTROL = false /\
   theta_predict toy_orc KMean (TS ex_sparse) (ScrN 3 1) = Err ERR_ARITY /\
   theta_predict toy_orc KMean (TI ex_inter) (Scr1 [(0, 0)]%Z) = Err ERR_ARITY.
+Proof. vm_compute. repeat split; reflexivity. Qed.
+
+(* ---------------------------------------------------------------- the model is the source
+   Generated/SrcPredict.v is re-translated from /repo's common.py, data.py and models/sparse_combo.py on every run
+   (harness/py2gal.py, configurations C09_* of harness/src_functions.py).  The model's screens stand for the ScreenBase
+   objects [pydata_of] gives: sample_ids of shape (n,), treatment_ids of shape (n, arity). *)
+
+(* copy_array_with_control_treatments_set_to_zero, for an array whose axis-0 entries have ANY type A (z = the zeros of
+   an entry's shape) and any default d: IndexError iff some id is outside [-n, n), else the gathered copy with the
+   entries at the sentinel's positions zeroed; at rows and at numbers these are the model's gather_zero2 / gather_zero1 *)
+Theorem C09_model_is_source_copy_zero : forall (A : Type) (z : A -> A) (d : A) arr ids,
+  src_copy_zero A z arr ids
+  = if forallb (py_valid (length arr)) ids then Ok (zero_where z ids (gather d arr ids)) else Err ERR_INDEX.
+Proof. exact @src_copy_zero_is_model. Qed.
+Print Assumptions C09_model_is_source_copy_zero.
+
+Theorem C09_model_is_source_copy_zero_shapes : forall (V2 : list (list Qc)) (V0 : list Qc) ids,
+  src_copy_zero vec zrow V2 ids = (if forallb (py_valid (length V2)) ids then Ok (gather_zero2 V2 ids) else Err ERR_INDEX) /\
+  src_copy_zero qnum zscal V0 ids = (if forallb (py_valid (length V0)) ids then Ok (gather_zero1 V0 ids) else Err ERR_INDEX).
+Proof. exact src_copy_zero_shapes. Qed.
+Print Assumptions C09_model_is_source_copy_zero_shapes.
+
+(* sparse_combo.predict on any arity-2 data and predict_single_drug on any arity-1 data, mean and viability, errors included *)
+Theorem C09_model_is_source_predict : forall orc t rows viab,
+  src_predict orc t (pydata_of (Scr2 rows)) viab = sp_predict orc viab t (Scr2 rows).
+Proof. exact src_predict_is_model. Qed.
+Print Assumptions C09_model_is_source_predict.
+
+Theorem C09_model_is_source_predict_single_drug : forall orc t rows viab,
+  src_predict_single_drug orc t (pydata_of (Scr1 rows)) viab = sp_predict orc viab t (Scr1 rows).
+Proof. exact src_predict_single_drug_is_model. Qed.
+Print Assumptions C09_model_is_source_predict_single_drug.
+
+(* ScreenBase.size / treatment_arity *)
+Theorem C09_model_is_source_size_arity : forall scr,
+  src_data_size (pydata_of scr) = Ok (Z.of_nat (scr_size scr)) /\
+  src_data_treatment_arity (pydata_of scr) = Ok (Z.of_nat (scr_arity scr)).
+Proof. exact src_size_arity_is_model. Qed.
+Print Assumptions C09_model_is_source_size_arity.
+
+(* the methods of SparseDrugComboMCMCSample: the arity dispatch (1 -> predict_single_drug, 2 -> predict, else
+   NotImplementedError) and the variance np.repeat(1 / precision, repeats=data.size).  [scr_okb]: the model's [ScrN a n]
+   ("any other arity") is only meant for a other than 1 and 2 - an invariant of the model's screen type, true of every
+   screen the harness or a theorem's non-vacuity example builds *)
+Theorem C09_model_is_source_predict_viability : forall orc t scr, scr_okb scr = true ->
+  src_sp_predict_viability orc t (pydata_of scr) = theta_predict orc KViab (TS t) scr.
+Proof. exact src_sp_predict_viability_is_model. Qed.
+Print Assumptions C09_model_is_source_predict_viability.
+
+Theorem C09_model_is_source_predict_conditional_mean : forall orc t scr, scr_okb scr = true ->
+  src_sp_predict_conditional_mean orc t (pydata_of scr) = theta_predict orc KMean (TS t) scr.
+Proof. exact src_sp_predict_conditional_mean_is_model. Qed.
+Print Assumptions C09_model_is_source_predict_conditional_mean.
+
+Theorem C09_model_is_source_predict_conditional_variance : forall orc t scr,
+  src_sp_predict_conditional_variance t (pydata_of scr) = theta_predict orc KVar (TS t) scr.
+Proof. exact src_sp_predict_conditional_variance_is_model. Qed.
+Print Assumptions C09_model_is_source_predict_conditional_variance.
+
+(* the methods of SparseDrugComboInteractionMCMCSample (models/sparse_combo_interaction.py): the arity guard (ValueError),
+   the gathered interaction, the single-effect comprehension over zip(sample_ids, column 0, column 1) with its KeyError,
+   exp / log / both clips, the variance *)
+Theorem C09_model_is_source_inter_predict_conditional_mean : forall orc t scr, scr_okb scr = true ->
+  src_in_predict_conditional_mean t (pydata_of scr) = theta_predict orc KMean (TI t) scr.
+Proof. exact src_in_predict_conditional_mean_is_model. Qed.
+Print Assumptions C09_model_is_source_inter_predict_conditional_mean.
+
+Theorem C09_model_is_source_inter_predict_viability : forall orc t scr, scr_okb scr = true ->
+  src_in_predict_viability orc t (pydata_of scr) = theta_predict orc KViab (TI t) scr.
+Proof. exact src_in_predict_viability_is_model. Qed.
+Print Assumptions C09_model_is_source_inter_predict_viability.
+
+Theorem C09_model_is_source_inter_predict_conditional_variance : forall orc t scr,
+  src_in_predict_conditional_variance t (pydata_of scr) = theta_predict orc KVar (TI t) scr.
+Proof. exact src_in_predict_conditional_variance_is_model. Qed.
+Print Assumptions C09_model_is_source_inter_predict_conditional_variance.
+
+(* hence the model's Theta interface IS the six translated methods ([py_theta_predict]: the dispatch on the sample's
+   class and the method name) *)
+Theorem C09_model_is_source_theta_predict : forall orc k t scr, scr_okb scr = true ->
+  py_theta_predict orc k t (pydata_of scr) = theta_predict orc k t scr.
+Proof. exact py_theta_predict_is_model. Qed.
+Print Assumptions C09_model_is_source_theta_predict.
+
+(* models/main.py.  The translations take the three Theta methods as a parameter pm (kind -> sample -> data -> result):
+   for ANY implementation that agrees with the model on the samples the holder stores ... *)
+Theorem C09_model_is_source_predict_viability_all : forall orc pm scr h,
+  (forall t, In t (h_thetas h) -> pm KViab t (pydata_of scr) = theta_predict orc KViab t scr) ->
+  src_predict_viability_all pm (pydata_of scr) h = predict_all orc KViab h scr.
+Proof. exact src_predict_viability_all_is_model. Qed.
+Print Assumptions C09_model_is_source_predict_viability_all.
+
+Theorem C09_model_is_source_predict_mean_all : forall orc pm scr h,
+  (forall t, In t (h_thetas h) -> pm KMean t (pydata_of scr) = theta_predict orc KMean t scr) ->
+  src_predict_mean_all pm (pydata_of scr) h = predict_all orc KMean h scr.
+Proof. exact src_predict_mean_all_is_model. Qed.
+Print Assumptions C09_model_is_source_predict_mean_all.
+
+Theorem C09_model_is_source_predict_variance_all : forall orc pm scr h,
+  (forall t, In t (h_thetas h) -> pm KVar t (pydata_of scr) = theta_predict orc KVar t scr) ->
+  src_predict_variance_all pm (pydata_of scr) h = predict_all orc KVar h scr.
+Proof. exact src_predict_variance_all_is_model. Qed.
+Print Assumptions C09_model_is_source_predict_variance_all.
+
+Theorem C09_model_is_source_predict_mean_avg : forall orc pm scr h,
+  (forall t, In t (h_thetas h) -> pm KMean t (pydata_of scr) = theta_predict orc KMean t scr) ->
+  src_predict_mean_avg pm (pydata_of scr) h = predict_avg orc KMean h scr.
+Proof. exact src_predict_mean_avg_is_model. Qed.
+Print Assumptions C09_model_is_source_predict_mean_avg.
+
+Theorem C09_model_is_source_predict_viability_avg : forall orc pm scr h,
+  (forall t, In t (h_thetas h) -> pm KViab t (pydata_of scr) = theta_predict orc KViab t scr) ->
+  src_predict_viability_avg pm (pydata_of scr) h = predict_avg orc KViab h scr.
+Proof. exact src_predict_viability_avg_is_model. Qed.
+Print Assumptions C09_model_is_source_predict_viability_avg.
+
+(* ... in particular for the translated methods themselves: no hypothesis about the methods is left *)
+Theorem C09_model_is_source_main : forall orc scr h, scr_okb scr = true ->
+  src_predict_viability_all (py_theta_predict orc) (pydata_of scr) h = predict_all orc KViab h scr /\
+  src_predict_mean_all (py_theta_predict orc) (pydata_of scr) h = predict_all orc KMean h scr /\
+  src_predict_variance_all (py_theta_predict orc) (pydata_of scr) h = predict_all orc KVar h scr /\
+  src_predict_mean_avg (py_theta_predict orc) (pydata_of scr) h = predict_avg orc KMean h scr /\
+  src_predict_viability_avg (py_theta_predict orc) (pydata_of scr) h = predict_avg orc KViab h scr.
+Proof. exact src_main_is_model. Qed.
+Print Assumptions C09_model_is_source_main.
+
+(* non-vacuity of the links: the translated functions computed on the example screens *)
+Example C09_ex_source :
+  qs (src_predict toy_orc ex_sparse (pydata_of (Scr2 ex_rows)) false)
+  = Ok [7 # 4; 5 # 2; 23 # 4; 143 # 4; 143 # 4; 81 # 2]%Q /\
+  qs (src_in_predict_viability toy_orc ex_inter (pydata_of (Scr2 ex_rows)))
+  = Ok [1 # 2; 99 # 100; 99 # 100; 99 # 100; 99 # 100; 99 # 100]%Q /\
+  (let h := {| h_n := 2; h_thetas := [TI ex_inter; TS ex_sparse] |} in
+   qs (src_predict_mean_avg (py_theta_predict toy_orc) (pydata_of (Scr2 [(0, 0, -1); (0, 0, 1)]%Z)) h) = Ok [7 # 8; 181 # 8]%Q) /\
+  src_predict toy_orc ex_sparse (pydata_of (Scr2 [(0, 2, 0)]%Z)) false = Err ERR_INDEX /\
+  scr_okb (Scr2 ex_rows) = true /\ scr_okb (ScrN 3 1) = true.
 Proof. vm_compute. repeat split; reflexivity. Qed.
